@@ -204,10 +204,10 @@ def _pygap(gap):
     return int(gap[0]) if len(gap) == 1 else (int(gap[0]), int(gap[1]))
 
 
-def _call(c, score_only=False):
+def _call(c, score_only=False, built=None):
     """the real heuristic; returns a list of Alignment (or an int for score_only)"""
     import biotite.sequence.align as align
-    s1, s2, matrix = _build(c)
+    s1, s2, matrix = built if built is not None else _build(c)
     k = c["kind"]
     if k == "banded":
         return align.align_banded(s1, s2, matrix, tuple(c["band"]), gap_penalty=_pygap(c["gap"]),
@@ -221,26 +221,83 @@ def _call(c, score_only=False):
     return r if score_only else [r]
 
 
+_CACHE = {}
+_SIDE = {}
+
+
+def _warm(c):
+    """build the (large) alphabets in the parent so that forked children inherit them"""
+    k1, k2 = len(c["M"]), len(c["M"][0])
+    _alphabet(WIDTH_SIZE[c.get("w1", "u8")] or k1, "int")
+    _alphabet(WIDTH_SIZE[c.get("w2", "u8")] or k2, "chr")
+
+
+def _side_checks(c, s1, s2, matrix, snap, res):
+    """facts about the returned objects and the inputs that the canonical (score, trace) form does not show"""
+    import numpy as np
+    out = []
+    if not (np.array_equal(s1.code, snap[0]) and np.array_equal(s2.code, snap[1])
+            and np.array_equal(matrix.score_matrix(), snap[2])):
+        out.append(("inputs-modified", "the call changed a sequence code or the substitution matrix"))
+    if isinstance(res, list):
+        for x in res:
+            if not (len(x.sequences) == 2 and x.sequences[0] is s1 and x.sequences[1] is s2):
+                out.append(("sequences-orientation", "Alignment.sequences is not [seq1, seq2] of the call"))
+                break
+        for i in range(len(res)):
+            for j in range(i + 1, len(res)):
+                if res[i].trace.size and res[j].trace.size and np.shares_memory(res[i].trace, res[j].trace):
+                    out.append(("traces-share-memory", f"returned traces {i} and {j} share memory"))
+                    break
+            else:
+                continue
+            break
+    return out
+
+
 def _call_safe(c, score_only=False):
-    """crash-prone (boundscheck(False) Cython): run in a forked child for the malformed stream"""
-    if c.get("fork"):
+    """Every call into the compiled extensions runs in a forked child (boundscheck(False) Cython fed with generated
+    indices / sizes): a dead or hanging child becomes the verdict CRASH for this case, never a dead check.  Results are
+    cached per case so that run_impl and the oracle share one execution."""
+    base = (signature(c), c.get("w1"), c.get("w2"))
+    key = (signature(c), bool(score_only), c.get("w1"), c.get("w2"))
+    _warm(c)
+    if key not in _CACHE:
         from common import sandbox
+        both = c["kind"] != "banded"          # one child computes the full call and the score_only call
 
         def f():
-            r = _call(c, score_only)
-            if score_only:
-                return int(r)
-            return [(int(x.score), x.trace.tolist()) for x in r]
-        r = sandbox.run_forked(f, timeout=60)
-        if r[0] == "ok":
-            return r[1]
-        if r[0] == "err":
-            raise _Remote(r[1])
-        raise _Remote("CRASH")
-    r = _call(c, score_only)
-    if score_only:
-        return int(r)
-    return [(int(x.score), x.trace.tolist()) for x in r]
+            import biotite.sequence.align as align  # noqa: F401
+            out = {}
+            for so in ((False, True) if both else (bool(score_only),)):
+                s1, s2, matrix = _build(c)
+                snap = (s1.code.copy(), s2.code.copy(), matrix.score_matrix().copy())
+                try:
+                    r = _call(c, so, built=(s1, s2, matrix))
+                except Exception as e:  # noqa: BLE001
+                    out[so] = ("err", type(e).__name__, [])
+                    continue
+                side = _side_checks(c, s1, s2, matrix, snap, r)
+                out[so] = ("ok", int(r) if so else [(int(x.score), x.trace.tolist()) for x in r], side)
+            return out
+        r = sandbox.run_forked(f, timeout=120)
+        if len(_CACHE) > 4000:
+            _CACHE.clear()
+            _SIDE.clear()
+        for so in ((False, True) if both else (bool(score_only),)):
+            k2 = (base[0], so, base[1], base[2])
+            if r[0] == "ok":
+                st, val, side = r[1][so]
+                _CACHE[k2] = (st, val)
+                _SIDE[k2] = side
+            elif r[0] == "err":
+                _CACHE[k2] = ("err", r[1])
+            else:
+                _CACHE[k2] = ("err", "CRASH")
+    st, val = _CACHE[key]
+    if st == "ok":
+        return val
+    raise _Remote(val)
 
 
 class _Remote(Exception):
@@ -474,6 +531,8 @@ def oracle(case):
     k = c.get("kind")
     if k not in ("banded", "gapped", "ungapped"):
         return []
+    if c.get("variants"):
+        return _variants_oracle(c)
     a, b, Mx, gap = c["a"], c["b"], c["M"], c["gap"]
     n, m = len(a), len(b)
     go, ge = gap[0], gap[-1]
@@ -500,6 +559,8 @@ def oracle(case):
         pass
     if not res:
         return [(tag + "/no-alignment", f"empty result list: {_brief(c)}")]
+    for what, msg in _SIDE.get((signature(c), False, c.get("w1"), c.get("w2")), []):
+        v.append((f"C09/{k}/{what}", f"{msg}; {_brief(c)}"))
     if malformed == "mts" and c["mts"] > 0:
         try:
             free = _call_safe(dict(c, mts=None))
@@ -1151,17 +1212,281 @@ def _multi_end(rng):
     return c
 
 
+# ---------------------------------------------------------------- hardening: spellings, defaults, reuse, refused calls
+def _variants_child(c):
+    """runs inside a forked child: one set of Sequence / SubstitutionMatrix objects is REUSED for a series of calls that
+    denote the same request in another spelling, interleaved with refused calls; every result is compared with the
+    result of the canonical call on fresh objects, and the inputs with their snapshots."""
+    import copy
+    import numpy as np
+    import biotite.sequence.align as align
+    k = c["kind"]
+    out = []
+
+    def canon(r):
+        if isinstance(r, list):
+            return ("ok", [(int(x.score), x.trace.tolist()) for x in r])
+        if hasattr(r, "trace"):
+            return ("ok", [(int(r.score), r.trace.tolist())])
+        return ("ok", int(r))
+
+    def run(fn):
+        try:
+            return canon(fn())
+        except Exception as e:  # noqa: BLE001
+            return ("err", type(e).__name__)
+    ref = run(lambda: _call(c))
+    ref_so = run(lambda: _call(c, True)) if k != "banded" else None
+    s1, s2, matrix = _build(c)
+    snap = (s1.code.copy(), s2.code.copy(), matrix.score_matrix().copy())
+    gap = _pygap(c["gap"])
+    mx = c.get("max", 1)
+    fits8 = lambda *xs: all(-128 <= int(x) <= 127 for x in xs)      # noqa: E731
+
+    def seq_variant(sq, how):
+        t = copy.copy(sq)
+        code = np.asarray(sq.code)
+        if how == "strided":
+            buf = np.zeros(2 * len(code) + 1, dtype=code.dtype)
+            buf[1::2][:len(code)] = code
+            t._seq_code = buf[1::2][:len(code)]
+        else:
+            ro = code.copy()
+            ro.setflags(write=False)
+            t._seq_code = ro
+        return t
+    # F-ordered / non-contiguous score matrix holding the same numbers
+    mF = align.SubstitutionMatrix(matrix.get_alphabet1(), matrix.get_alphabet2(),
+                                  np.asfortranarray(matrix.score_matrix()))
+    steps = []     # (name, callable, allowed exception classes in place of the reference result, compare with ref_so?)
+    if k == "banded":
+        b0, b1 = int(c["band"][0]), int(c["band"][1])
+        loc = bool(c.get("local"))
+        blist = [b0, b1]
+        barr = np.array([b0, b1], dtype=np.int64)
+        steps += [
+            ("band-list", lambda: align.align_banded(s1, s2, matrix, blist, gap, loc, mx), (), False),
+            ("band-ndarray-int64", lambda: align.align_banded(s1, s2, matrix, barr, gap, loc, mx), (), False),
+            ("band-numpy-scalars", lambda: align.align_banded(s1, s2, matrix, (np.int16(b0), np.int64(b1)), gap, loc, mx), (), False),
+            ("max_number-numpy", lambda: align.align_banded(s1, s2, matrix, (b0, b1), gap, loc, np.int64(mx)), (), False),
+            ("local-numpy-bool", lambda: align.align_banded(s1, s2, matrix, (b0, b1), gap, np.bool_(loc), mx), (), False),
+            ("keywords", lambda: align.align_banded(seq1=s1, seq2=s2, matrix=matrix, band=(b0, b1), gap_penalty=gap,
+                                                    local=loc, max_number=mx), (), False),
+            ("matrix-fortran-order", lambda: align.align_banded(s1, s2, mF, (b0, b1), gap, loc, mx), (), False),
+            ("codes-strided", lambda: align.align_banded(seq_variant(s1, "strided"), seq_variant(s2, "strided"), matrix,
+                                                         (b0, b1), gap, loc, mx), (), False),
+            ("codes-read-only", lambda: align.align_banded(seq_variant(s1, "ro"), seq_variant(s2, "ro"), matrix,
+                                                           (b0, b1), gap, loc, mx), ("ValueError",), False),
+            ("refused:gap-positive", lambda: align.align_banded(s1, s2, matrix, (b0, b1), 1, loc, mx), "must-raise", False),
+            ("refused:max_number-0", lambda: align.align_banded(s1, s2, matrix, (b0, b1), gap, loc, 0), "must-raise", False),
+            ("refused:band-outside", lambda: align.align_banded(s1, s2, matrix, (len(c["b"]) + 1, len(c["b"]) + 3), gap, loc, mx),
+             "must-raise", False),
+            ("reuse-after-refused", lambda: align.align_banded(s1, s2, matrix, (b0, b1), gap, loc, mx), (), False),
+        ]
+        if fits8(b0, b1):
+            b8 = np.array([b0, b1], dtype=np.int8)
+            steps.append(("band-ndarray-int8", lambda: align.align_banded(s1, s2, matrix, b8, gap, loc, mx), (), False))
+        if isinstance(gap, int):
+            steps.append(("gap-numpy-int", lambda: align.align_banded(s1, s2, matrix, (b0, b1), np.int64(gap), loc, mx),
+                          ("TypeError",), False))
+        else:
+            steps.append(("gap-list", lambda: align.align_banded(s1, s2, matrix, (b0, b1), list(gap), loc, mx),
+                          ("TypeError",), False))
+        dflt = run(lambda: align.align_banded(s1, s2, matrix, (b0, b1), gap_penalty=-10, local=False, max_number=1000))
+        got = run(lambda: align.align_banded(s1, s2, matrix, (b0, b1)))
+        if got != dflt:
+            out.append((f"C09/{k}/defaults", f"align_banded(seq1, seq2, matrix, band) differs from the call with the documented "
+                        f"defaults gap_penalty=-10, local=False, max_number=1000; {_brief(c)}"))
+        mutable = [("band list", blist, [b0, b1]), ("band ndarray", barr.tolist(), [b0, b1])]
+    else:
+        si, sj = int(c["seed"][0]), int(c["seed"][1])
+        thr = int(c["thr"])
+        d = c.get("dir", "both")
+        slist = [si, sj]
+        sarr = np.array([si, sj], dtype=np.int64)
+        if k == "gapped":
+            mts = c.get("mts")
+
+            def g(seed=(si, sj), t=thr, gp=gap, m_=mx, dr=d, so=False, ms=mts, q1=s1, q2=s2, mat=matrix):
+                return align.align_local_gapped(q1, q2, mat, seed, t, gp, m_, dr, so, ms)
+            steps += [
+                ("max_number-numpy", lambda: g(m_=np.int32(mx)), (), False),
+                ("direction-numpy-str", lambda: g(dr=np.str_(d)), ("TypeError",), False),
+                ("keywords", lambda: align.align_local_gapped(seq1=s1, seq2=s2, matrix=matrix, seed=(si, sj), threshold=thr,
+                                                              gap_penalty=gap, max_number=mx, direction=d, score_only=False,
+                                                              max_table_size=mts), (), False),
+                ("score_only-numpy-bool", lambda: g(so=np.bool_(True)), (), True),
+                ("refused:gap-zero", lambda: g(gp=0), "must-raise", False),
+                ("refused:max_table_size-0", lambda: g(ms=0), "must-raise", False),
+            ]
+            if mts is not None:
+                steps.append(("max_table_size-numpy", lambda: g(ms=np.int64(mts)), (), False))
+            if isinstance(gap, int):
+                steps.append(("gap-numpy-int", lambda: g(gp=np.int64(gap)), ("TypeError",), False))
+            else:
+                steps.append(("gap-list", lambda: g(gp=list(gap)), ("TypeError",), False))
+            dflt = run(lambda: align.align_local_gapped(s1, s2, matrix, (si, sj), thr, gap_penalty=-10, max_number=1,
+                                                        direction="both", score_only=False, max_table_size=None))
+            got = run(lambda: align.align_local_gapped(s1, s2, matrix, (si, sj), thr))
+            what = "gap_penalty=-10, max_number=1, direction='both', score_only=False, max_table_size=None"
+        else:
+            def g(seed=(si, sj), t=thr, gp=None, m_=None, dr=d, so=False, ms=None, q1=s1, q2=s2, mat=matrix):
+                return align.align_local_ungapped(q1, q2, mat, seed, t, dr, so)
+            steps += [
+                ("check_matrix-False", lambda: align.align_local_ungapped(s1, s2, matrix, (si, sj), thr, d, False, False), (), False),
+                ("keywords", lambda: align.align_local_ungapped(seq1=s1, seq2=s2, matrix=matrix, seed=(si, sj), threshold=thr,
+                                                                direction=d, score_only=False, check_matrix=True), (), False),
+                ("direction-numpy-str", lambda: g(dr=np.str_(d)), ("TypeError",), False),
+                ("score_only-numpy-bool", lambda: g(so=np.bool_(True)), (), True),
+            ]
+            dflt = run(lambda: align.align_local_ungapped(s1, s2, matrix, (si, sj), thr, direction="both", score_only=False,
+                                                          check_matrix=True))
+            got = run(lambda: align.align_local_ungapped(s1, s2, matrix, (si, sj), thr))
+            what = "direction='both', score_only=False, check_matrix=True"
+        if got != dflt:
+            out.append((f"C09/{k}/defaults", f"the call without optional arguments differs from the call with the documented "
+                        f"defaults {what}; {_brief(c)}"))
+        steps += [
+            ("seed-list", lambda: g(seed=slist), (), False),
+            ("seed-ndarray-int64", lambda: g(seed=sarr), (), False),
+            ("seed-numpy-scalars", lambda: g(seed=(np.int32(si), np.uint16(sj)) if si >= 0 and sj >= 0 else (si, sj)), (), False),
+            ("threshold-numpy-int64", lambda: g(t=np.int64(thr)), (), False),
+            ("threshold-numpy-uint32", lambda: g(t=np.uint32(thr)) if thr >= 0 else g(), (), False),
+            ("matrix-fortran-order", lambda: g(mat=mF), (), False),
+            ("codes-strided", lambda: g(q1=seq_variant(s1, "strided"), q2=seq_variant(s2, "strided")), (), False),
+            ("codes-read-only", lambda: g(q1=seq_variant(s1, "ro"), q2=seq_variant(s2, "ro")), ("ValueError",), False),
+            ("refused:seed-out-of-range", lambda: g(seed=(len(c["a"]), sj)), "must-raise", False),
+            ("refused:seed-negative", lambda: g(seed=(si, -1)), "must-raise", False),
+            ("refused:threshold-negative", lambda: g(t=-1), "must-raise", False),
+            ("reuse-after-refused", lambda: g(), (), False),
+            ("reuse-score_only-then-full", lambda: (g(so=True), g())[1], (), False),
+        ]
+        if 0 <= si <= 255 and 0 <= sj <= 255:
+            s8 = np.array([si, sj], dtype=np.uint8)
+            steps.append(("seed-ndarray-uint8", lambda: g(seed=s8), (), False))
+        if fits8(thr):
+            steps.append(("threshold-numpy-int8", lambda: g(t=np.int8(thr)), (), False))
+        mutable = [("seed list", slist, [si, sj]), ("seed ndarray", sarr.tolist(), [si, sj])]
+    # a DIFFERENT request on the same objects (memoisation keyed on the objects must be visible), then the first again
+    c2 = dict(c)
+    if k == "banded":
+        n_, m_ = len(c["a"]), len(c["b"])
+        c2["band"] = [min(c["band"]) - 1, max(c["band"]) + 2] if min(c["band"]) > -n_ + 1 else [0, max(m_ - 1, 0)]
+        c2["local"] = not c.get("local")
+    else:
+        c2["seed"] = [(c["seed"][0] + 1) % len(c["a"]), (c["seed"][1] + 1) % len(c["b"])]
+        c2["thr"] = 0 if c["thr"] else 3
+        c2["dir"] = {"both": "upstream", "upstream": "downstream", "downstream": "both"}[c.get("dir", "both")]
+    ref2 = run(lambda: _call(c2))
+    got2 = run(lambda: _call(c2, built=(s1, s2, matrix)))
+    if got2 != ref2:
+        out.append((f"C09/{k}/reuse/other-request", f"a second, different request on the same Sequence / matrix objects gives "
+                    f"{str(got2)[:160]}, on fresh objects {str(ref2)[:160]}; first {_brief(c)}; second {_brief(c2)}"))
+    steps.append(("reuse-after-other-request", lambda: _call(c, built=(s1, s2, matrix)), (), False))
+    for name, fn, allowed, use_so in steps:
+        got = run(fn)
+        want = ref_so if use_so else ref
+        if allowed == "must-raise":
+            if got[0] != "err":
+                pass        # acceptance of malformed input is judged by the malformed stream
+        elif got != want and not (got[0] == "err" and got[1] in allowed):
+            out.append((f"C09/{k}/spelling/{name}", f"{name}: got {str(got)[:160]}, the canonical call on fresh objects gives "
+                        f"{str(want)[:160]}; {_brief(c)}"))
+        if not (np.array_equal(s1.code, snap[0]) and np.array_equal(s2.code, snap[1])
+                and np.array_equal(matrix.score_matrix(), snap[2])):
+            out.append((f"C09/{k}/inputs-modified/{name}", f"a sequence code or the matrix changed during '{name}'; {_brief(c)}"))
+            break
+    if k != "banded":
+        mutable = [(n_, (cur.tolist() if hasattr(cur, "tolist") else cur), w) for n_, cur, w in
+                   [("seed list", slist, [si, sj]), ("seed ndarray", sarr, [si, sj])]]
+    else:
+        mutable = [("band list", blist, [b0, b1]), ("band ndarray", barr.tolist(), [b0, b1])]
+    for n_, cur, w in mutable:
+        if list(cur) != w:
+            out.append((f"C09/{k}/inputs-modified/argument", f"the {n_} passed as argument was modified: {cur} != {w}; {_brief(c)}"))
+    # a matrix whose alphabets do not fit must be refused by all three functions (check_matrix=True)
+    import biotite.sequence as seq
+    other = seq.Alphabet(["x"])
+    bad = align.SubstitutionMatrix(other, other, np.zeros((1, 1), dtype=np.int32))
+    if len(matrix.get_alphabet1()) > 1 or len(matrix.get_alphabet2()) > 1:
+        if k == "banded":
+            r = run(lambda: align.align_banded(s1, s2, bad, tuple(c["band"]), gap))
+        elif k == "gapped":
+            r = run(lambda: align.align_local_gapped(s1, s2, bad, tuple(c["seed"]), c["thr"], gap))
+        else:
+            r = run(lambda: align.align_local_ungapped(s1, s2, bad, tuple(c["seed"]), c["thr"]))
+        if r != ("err", "ValueError"):
+            out.append((f"C09/{k}/matrix-alphabet-not-checked", f"a matrix over a foreign alphabet was not refused with ValueError: {r}; {_brief(c)}"))
+    return out
+
+
+def _variants_oracle(c):
+    from common import sandbox
+    _warm(c)
+    r = sandbox.run_forked(lambda: _variants_child(c), timeout=120)
+    if r[0] == "ok":
+        seen, out = set(), []
+        for key, msg in r[1]:
+            if key not in seen:
+                seen.add(key)
+                out.append((key, msg))
+        return out
+    if r[0] == "err":
+        return [(f"C09/{c['kind']}/variants/harness-{r[1]}", f"variant run raised {r[1]}: {r[2] if len(r) > 2 else ''}; {_brief(c)}")]
+    return [(f"C09/{c['kind']}/variants/crash", f"the process died / hung during the argument-spelling series; {_brief(c)}")]
+
+
+def _variants(rng):
+    c = _case(rng, 7) if rng.random() < 0.7 else _multi_end(rng)
+    c = {k: v for k, v in c.items() if k not in ("ops", "fork", "on_optimal")}
+    if c.get("w1") == "u32":
+        c["w1"] = "u16"
+    if c.get("w2") == "u32":
+        c["w2"] = "u16"
+    c["variants"] = True
+    return c
+
+
+def _init_boundary(rng):
+    """a region whose length is exactly INIT_SIZE - 2 .. INIT_SIZE + 1: the last antidiagonals touch row / column
+    INIT_SIZE - 1, INIT_SIZE (== the initial table size) with and without a doubling"""
+    k = 4
+    n = rng.choice([98, 99, 100, 101])
+    a = [rng.randrange(k) for _ in range(n + 1)]
+    b = list(a)
+    r = rng.random()
+    if r < 0.3:
+        del b[rng.randrange(1, len(b))]
+    elif r < 0.6:
+        b.insert(rng.randrange(1, len(b)), rng.randrange(k))
+    mt, mm = rng.randint(2, 4), rng.randint(-4, -2)
+    M = [[mt if i == j else mm for j in range(k)] for i in range(k)]
+    d = rng.choice(["downstream", "upstream"])
+    seed = [0, 0] if d == "downstream" else [len(a) - 1, len(b) - 1]
+    c = {"kind": "gapped", "a": a, "b": b, "M": M, "w1": "u8", "w2": "u8", "max": rng.choice([1, 2]),
+         "gap": rng.choice([[-3], [-4, -1]]), "seed": seed, "thr": rng.choice([8, 12]), "dir": d}
+    if rng.random() < 0.5:
+        sizes = sorted(table_sizes(c))
+        c["mts"] = rng.choice(sizes) + rng.choice([0, 0, -1])
+    c["ops"] = _ops(c)
+    return c
+
+
 def cases(rng, tier):
     quick = tier == "quick"
+    for k in range(60 if quick else 600):
+        yield _variants(rng)
+    for k in range(3 if quick else 30):
+        yield _init_boundary(rng)
     for k in range(150 if quick else 1500):
         yield _multi_end(rng)
     for k in range(120 if quick else 1200):
         yield _xdrop_edge(rng)
-    for k in range(700 if quick else 8500):
+    for k in range(560 if quick else 8500):
         yield _case(rng, 8 if (quick or k % 5) else 14, allow_empty=(k % 12 == 0))
     for k in range(60 if quick else 600):
         yield _case(rng, 6, malformed=True)
-    for k in range(60 if quick else 600):
+    for k in range(40 if quick else 600):
         yield _on_optimal(rng)
     for k in range(6 if quick else 60):
         yield _long(rng, mem=(k % 2 == 1))
@@ -1238,7 +1563,7 @@ def nontrivial(case, impl_out):
 
 
 def signature(case):
-    keys = ["kind", "a", "b", "M", "gap", "local", "band", "seed", "thr", "dir", "max", "mts"]
+    keys = ["kind", "a", "b", "M", "gap", "local", "band", "seed", "thr", "dir", "max", "mts", "variants"]
     return "|".join(str(case.get(k)) for k in keys)
 
 
